@@ -89,7 +89,7 @@ pub fn search(seed: u64, budget: &Budget, thorough: bool) -> (u64, Option<(Strin
         if !budget.left() { break; }
         let alpha: &[u8] = *rng.pick(&[&b"ACGT"[..], b"AC", b"ACGTN", b"ACGTacgt", b"ACGTNacgtn", b"atn", b"ANan"]);
         let ns = 1 + rng.below(2) as usize;
-        let seqs: Vec<Vec<u8>> = (0..ns).map(|_| { let n = 1 + rng.below(14) as usize; rng.bytes(n, alpha) }).collect();
+        let seqs: Vec<Vec<u8>> = (0..ns).map(|_| { let n = rng.below(15) as usize; rng.bytes(n, alpha) }).collect();
         let pl = 1 + rng.below(7) as usize;
         let pat = if rng.below(2) == 0 && seqs[0].len() >= pl { let s = rng.below((seqs[0].len() - pl + 1) as u64) as usize; let mut p = seqs[0][s..s + pl].to_vec(); if rng.below(2) == 0 { let i = rng.below(pl as u64) as usize; p[i] = *rng.pick(alpha); } p } else { rng.bytes(pl, alpha) };
         let k = *rng.pick(&[1u32, 2, 3, 8, 65, 70]);
